@@ -409,10 +409,15 @@ TRUSTED_BASE = ['coq/C09/Spec.v abstract stream; coq/C07 reader model (tied to t
                 'props/C05.py fragment test + normaliser (oracle on the implementation)']
 ASSUMPTIONS = ['call sequences admitted by the writer\'s documented ordering; values within the C parameter types',
                'reader options: claspExt as the writer\'s, cEdge = cHeuristic = false']
-LEVEL_TEXT = ('Coq model of SmodelsOutput composed with the C07 reader model; machine-checked: the writer refuses exactly the documented cases, '
-              'normalised bodies are permutations, and the line written for a basic rule is read back as its normal form (partial round trip); '
-              'whole programs are covered by differential correspondence and an independent python normaliser.')
-LEVEL_NOTE = 'Round trip proved for the line of a basic rule only (c05_roundtrip_partial); other rule kinds, symbol table, compute statement, steps: correspondence + independent normaliser only.'
+LEVEL_TEXT = ('Coq model of SmodelsOutput composed with the C07 reader model; machine-checked for ALL call sequences of the fragment '
+              '(c05_roundtrip: in_fragment ext f p = true => the writer writes p completely and the reader, claspExt = ext, returns exactly sm_norm f p: every rule kind '
+              '1/2/3/5/6/8 incl. false atom, weight 0, bounds, minimize sign normalisation and priority renumbering, symbol table, compute statement B+/B- incl. the false atom, '
+              'externals 91/92 with the value coding, any number of incremental steps, extensions on or off, any false atom, bodies of any length); the writer refuses exactly the '
+              'documented cases (c05_refuses); normalised bodies are permutations (c05_perm). Proof route: the written text is the rendering of a laid-out program of C07/Spec.v that is '
+              'layout_ok, in_range and denotes sm_norm p, then c07_complete. The model is tied to the code by differential correspondence (bytes written + reader calls) and the Coq '
+              'fragment/normal-form definitions are cross-checked against the independent python normaliser that judges the implementation (c05_spec_matches_oracle).')
+LEVEL_NOTE = ('c05_roundtrip is full over in_fragment (boolean, coq/C05/Spec.v). Excluded from in_fragment, as from the property\'s quantifier: names containing LF/CR/NUL, negative rule-body weights, '
+              'minimize/external after symbols, |minimize weight| = 2^31, list lengths >= 2^32; and the KNOWN finding probe-leading-9 (non-incremental program whose first written line is an external: c05_probe_refuted).')
 TECHNIQUE = 'Coq proof about an executable model + differential correspondence with the implementation'
 DESIGN_REF = 'DESIGN.md section 5, C05'
 READY = True
